@@ -64,7 +64,7 @@ def sites(text):
             in_test = True
         if in_test:
             continue
-        if not s or s.startswith("//") or s.startswith("#[") or s.startswith("#![") or s.startswith("use ") or s.startswith("pub use ") \
+        if not s or s.startswith("//") or s.startswith("*") or s.startswith("/*") or s.startswith("#[") or s.startswith("#![") or s.startswith("use ") or s.startswith("pub use ") \
                 or s.startswith("assert") or s.startswith("debug_assert") or "cfg(" in s:
             continue
         code = line.split("//")[0]
